@@ -70,7 +70,7 @@ class MarkS(Funsor):
 
 
 _reflect = FI.reflect.interpret     # direct constructor: does not look at the stack
-SENT = {n: _reflect(Variable, "sentinel_" + n, Real) for n in ("P", "W2", "W3", "Q")}
+SENT = {n: _reflect(Variable, "sentinel_" + n, Real) for n in ("P", "W2", "W3", "Q", "Shift", "Traced", "Other")}
 SUBST_VALUE = _reflect(Number, 1.0, "real")
 
 
@@ -106,10 +106,49 @@ def _q_rule(state, name):
     return _rule("Q")(name)
 
 
-USER_LEAVES = ["P", "W1", "W2", "W3", "Q"]
+# A two-level StatefulInterpretation hierarchy.  In funsor every class gets its OWN registry
+# (StatefulInterpretationMeta.__init__: `cls.registry = KeyedRegistry(...)`): a class answers only the
+# patterns registered on that very class — the parent does not see its subclasses' or siblings' rules (and, in
+# the pinned code, a subclass does not inherit its parent's either).  Shift's rule is registered BEFORE the
+# subclasses are defined.
+class Shift(StatefulInterpretation):
+    def __init__(self, name="Shift"):
+        super().__init__(name)
+
+
+@Shift.register(MarkA, str)
+def _shift_rule(state, name):
+    return _rule("Shift")(name)
+
+
+class Traced(Shift):
+    def __init__(self):
+        super().__init__("Traced")
+
+
+@Traced.register(MarkB, str)
+def _traced_rule(state, name):
+    return _rule("Traced")(name)
+
+
+class Other(Shift):
+    def __init__(self):
+        super().__init__("Other")
+
+
+@Other.register(Binary, ops.PowOp, MarkC, MarkC)
+def _other_rule(state, op, lhs, rhs):
+    return _rule("Other")(op, lhs, rhs)
+
+
+HIER = {"Shift": Shift, "Traced": Traced, "Other": Other}
+SHIFT0, TRACED0, OTHER0 = Shift(), Traced(), Other()
+
+USER_LEAVES = ["P", "W1", "W2", "W3", "Q", "Shift", "Traced", "Other"]
 USER_CHAINS = [("W", ["W1", "W2", "W3"])]
-USER_RULES = [("P", ["a", "bin"]), ("W2", ["b"]), ("W3", ["a", "b"]), ("Q", ["b"])]
-USER_OBJ = {"P": P, "W1": W1, "W2": W2, "W3": W3, "W": W}
+USER_RULES = [("P", ["a", "bin"]), ("W2", ["b"]), ("W3", ["a", "b"]), ("Q", ["b"]),
+              ("Shift", ["a"]), ("Traced", ["b"]), ("Other", ["bin"])]      # rules_of class: its own table only
+USER_OBJ = {"P": P, "W1": W1, "W2": W2, "W3": W3, "W": W, "Shift": SHIFT0, "Traced": TRACED0, "Other": OTHER0}
 PROBES = ["num", "a", "b", "bin"]
 PROBE_CLASS = {"num": Binary, "a": MarkA, "b": MarkB, "bin": Binary, "S": MarkS}
 OBSERVABLE = set(USER_LEAVES) | {"subst"}
@@ -382,6 +421,10 @@ class RealRun:
             return o
         if ctor == "tape":
             return AdjointTape()
+        if ctor in HIER:
+            o = HIER[ctor]()
+            CANON.tmp_names[id(o)] = ctor
+            return o
         raise ValueError(ctor)
 
     def record(self, k, r, raised):
